@@ -306,7 +306,7 @@ def run_property(prop, tier, seed, replay=None):
     coverage = {
         "obligations": obligations,
         "discharged": discharged if proof_ok else min(discharged, max(0, obligations - 1)),
-        "checker_cmd": f"cd /verif/lean && lake build {' '.join(modules)} && lake env lean ../work/Audit_{pid}.lean  # #print axioms",
+        "checker_cmd": f"cd /verif/lean && lake build {' '.join(modules)} && for m in ../work/Audit_{pid}_*.lean; do lake env lean $m; done  # #print axioms",
         "trusted_base": base_trusted() + list(prop.trusted_base),
         "theorems": audit["theorems"],
         "axioms_used": sorted({a for axs in audit["axioms"].values() for a in axs}),
